@@ -252,8 +252,29 @@ func runC09(c *Ctx) error {
 			fail("consecutive exponents are equal", "(gen_random twice)", "different", "equal")
 		}
 	}
+	return evalIkesaPairs(c, primes, c.N(4, 60))
+}
+
+
+// NewIKESAKey end to end: two parties, scripted exponents; local public value = 2^x mod p; both derive the keys an
+// independent party derives from g^ir of the modulus length (used by C09 and C07)
+func evalIkesaPairs(c *Ctx, primes map[string]*big.Int, n int) error {
+	r := c.R
+	rng := c.Rng
+	two := big.NewInt(2)
+	fail := func(what, cs, exp, obs string) { r.Add(Finding{Kind: "instance", What: what, Case: cs, Expected: exp, Observed: obs}) }
+	if primes == nil {
+		primes = map[string]*big.Int{}
+		for _, g := range []string{"2", "14"} {
+			ph, err := c.M.Ask("(dh_prime " + g + ")")
+			if err != nil {
+				return err
+			}
+			primes[g] = new(big.Int).SetBytes(L(A(ph)).B(0))
+		}
+	}
 	// NewIKESAKey end to end: two parties, scripted exponents; local public value = 2^x mod p
-	for i, n := 0, c.N(4, 60); i < n; i++ {
+	for i := 0; i < n; i++ {
 		g := []string{"2", "14"}[i%2]
 		s := genSuite(rng)
 		prop := &message.Proposal{ProtocolID: message.TypeIKE}
@@ -268,6 +289,21 @@ func runC09(c *Ctx) error {
 		xb[0] &= 0x7f
 		p := primes[g]
 		pubA := padTo(new(big.Int).Exp(two, new(big.Int).SetBytes(xa), p).Bytes(), dhLen[g])
+		if i%2 == 1 || i >= 2 {
+			// half of the pairs: a responder exponent (just above the 2^128 lower bound, so the search is cheap) for which
+			// g^ir starts with a zero octet - the representation of the shared secret matters exactly then
+			A := new(big.Int).SetBytes(pubA)
+			for t := 0; t < 6000; t++ {
+				cand := make([]byte, 256)
+				copy(cand[239:], rng.Bytes(17))
+				cand[239] |= 1
+				if sh := new(big.Int).Exp(A, new(big.Int).SetBytes(cand), p); sh.BitLen() <= 8*(dhLen[g]-1) {
+					xb = cand
+					r.Hist["new-ikesa-pair:shared-secret-with-leading-zero-octet"]++
+					break
+				}
+			}
+		}
 		nonce := rng.Bytes(64)
 		si, sr := rng.U64(), rng.U64()
 		var kb, ka *security.IKESAKey
@@ -287,6 +323,11 @@ func runC09(c *Ctx) error {
 		}
 		if saKeysSX(ka) != saKeysSX(kb) {
 			fail("initiator and responder that exchanged public values do not derive identical keys", cs, saKeysSX(ka), saKeysSX(kb))
+		}
+		// ... and they are the keys an independent party derives from g^ir = B^a mod p as an octet string of the modulus length
+		gir := padTo(new(big.Int).Exp(new(big.Int).SetBytes(pubB), new(big.Int).SetBytes(xa), p).Bytes(), dhLen[g])
+		if ref, _ := implGenIkesa(s, nonce, gir, si, sr); ref != saKeysSX(kb) {
+			fail("the keys NewIKESAKey derives are not those of prf+ over SKEYSEED = prf(Ni|Nr, g^ir) with g^ir of the modulus length", cs, ref, saKeysSX(kb))
 		}
 	}
 	return nil
